@@ -49,7 +49,8 @@ def jobs(tier, seed):
         out.append(('hist.' + '-'.join(seq), 'h_hist', dict(seq=list(seq))))
     if n == 3:
         # a few longer histories around a power cycle (all 4-operation histories are in the thorough tier)
-        for seq in (('tick', 'off', 'on', 'recv'), ('recv', 'off', 'on', 'tick'), ('tick', 'off', 'on', 'recv', 'tick'), ('recv', 'tick', 'recv', 'tick'), ('tick', 'on', 'recv', 'tick')):
+        for seq in (('tick', 'off', 'on', 'recv'), ('recv', 'off', 'on', 'tick'), ('tick', 'off', 'on', 'recv', 'tick'), ('recv', 'tick', 'recv', 'tick'), ('tick', 'on', 'recv', 'tick'),
+                    ('bad', 'recv', 'recv', 'tick'), ('recv', 'bad', 'recv', 'tick', 'tick')):
             out.append(('hist.' + '-'.join(seq), 'h_hist', dict(seq=list(seq))))
     return out
 
@@ -201,7 +202,15 @@ def h_hist(ctx, seq):
         pending = []       # model of the queue
         last_tick = None   # frame of the last tick since power-on (None: no tick yet, nothing can have passed)
         for i, op in enumerate(seq):
-            if op == 'recv':
+            if op == 'bad':
+                # a datagram the transceiver refuses (other header version): no effect, now or later
+                m = sym_tx(ctx, T, 1, 148, prefix='op%d.' % i)
+                d = m.gen_msg()
+                trx.data_if.sock.inject(d if ctx.mode == 'sym' else bytes(d))
+                with ctx.no_raise('op%d.bad:no-exception' % i):
+                    r = trx.recv_data_msg()
+                ctx.check('op%d.bad:refused' % i, r is None and len(trx._tx_queue) == len(pending), got=len(trx._tx_queue))
+            elif op == 'recv':
                 m = sym_tx(ctx, T, 0, 148, prefix='op%d.' % i)
                 d = m.gen_msg()
                 trx.data_if.sock.inject(d if ctx.mode == 'sym' else bytes(d))
@@ -216,6 +225,11 @@ def h_hist(ctx, seq):
                 else:
                     if trx.running: pending.append(m.fn)
                     ctx.check('op%d.recv:queue-length' % i, len(trx._tx_queue) == len(pending), got=len(trx._tx_queue), want=len(pending))
+                    q = trx._tx_queue
+                    if trx.running and len(q) == len(pending) and q:
+                        ctx.check('op%d.recv:a-new-message-object' % i, not any(q[-1] is x for x in q[:-1]))
+                        for qi, (x, want) in enumerate(zip(q, pending)):
+                            ctx.check('op%d.recv:queue[%d].fn' % (i, qi), eq(x.fn, want))
             elif op == 'tick':
                 fn = ctx.int('op%d.fn' % i, 0, HYPER - 1)
                 fwd = Fwd(); log.records.clear()
